@@ -24,6 +24,8 @@ import (
 
 const c03Pkg = "gno.land/r/cx/prog"
 
+const c03KeyShallow = "value-copy-shares-unloaded-nested-aggregate"
+
 type c03Call struct {
 	Fn int    `json:"fn"`
 	A  int    `json:"a"`
@@ -204,18 +206,31 @@ func c03Exec(ctx *vk.Ctx, c c03Case) error {
 	if len(parts) != len(c.Calls)+1 {
 		return fmt.Errorf("M: runAll returned %d parts for %d calls: %q", len(parts), len(c.Calls), all)
 	}
+	// Known divergence of the unchanged tree: copying a struct/array value that
+	// was loaded from the store shares its nested, not yet loaded arrays/structs
+	// with the source (StructValue.Copy / ArrayValue.Copy copy a RefValue field
+	// shallowly), so later writes to one show through the other. Only programs
+	// that copy such a value from a place can be affected.
+	diverged := func(err error) error {
+		if c.Prog.NestedCopy > 0 && ctx.Known(c03KeyShallow) {
+			ctx.Class("known:" + c03KeyShallow)
+			return nil
+		}
+		return err
+	}
 	for i := range c.Calls {
 		if parts[i] != pRes[i] {
-			return fmt.Errorf("call %d (%s(%d,%q)) returns differ:\n separate txs: %s\n in memory   : %s", i, c.Prog.Funcs[c.Calls[i].Fn].Name, c.Calls[i].A, c.Calls[i].S, pRes[i], parts[i])
+			return diverged(fmt.Errorf("call %d (%s(%d,%q)) returns differ:\n separate txs: %s\n in memory   : %s", i, c.Prog.Funcs[c.Calls[i].Fn].Name, c.Calls[i].A, c.Calls[i].S, pRes[i], parts[i]))
 		}
 	}
 	if parts[len(c.Calls)] != pFinal {
-		return fmt.Errorf("final Dump() differs:\n separate txs: %s\n in memory   : %s", pFinal, parts[len(c.Calls)])
+		return diverged(fmt.Errorf("final Dump() differs:\n separate txs: %s\n in memory   : %s", pFinal, parts[len(c.Calls)]))
 	}
 	mFinal, err := m.QStr(c03Pkg, "Dump()")
 	if err != nil || mFinal != pFinal {
-		return fmt.Errorf("Dump() of the in-memory chain, read back after its only commit, differs:\n separate txs: %s\n in memory   : %s (%v)", pFinal, mFinal, err)
+		return diverged(fmt.Errorf("Dump() of the in-memory chain, read back after its only commit, differs:\n separate txs: %s\n in memory   : %s (%v)", pFinal, mFinal, err))
 	}
+	ctx.ClassIf(c.Prog.NestedCopy > 0, "copies-value-with-nested-aggregate")
 	ctx.ClassIf(restarts > 0, "with-restart")
 	ctx.ClassIf(c.Prog.Alias > 0, "has-alias-construct")
 	ctx.ClassIf(crossAlias > 0, "write-seen-through-other-alias-in-later-tx")
